@@ -244,6 +244,13 @@ def main(argv=None):
         idxs = [i for i, r in enumerate(g['res']) if r['status'] in ('refuted', 'refuted-candidate')]
         idx = idxs[0] if idxs else [i for i, r in enumerate(g['res']) if r['status'] != 'proved'][0]
         path, found = replay_mod.make_replay(pid, name, g['obs'][idx], g['res'][idx], g['contract'], reg, mod)
+        if not found and not any(r['status'] == 'refuted' for r in g['res']):
+            # every non-proved instance is only a CANDIDATE (a model with 2**k left uninterpreted after the full query timed
+            # out) and it did not replay on the real code: that is an undecided obligation, not a refutation.  It becomes a
+            # violation only through the ledger rule (discharged on the committed tree, file edited since).
+            if not (ledger is not None and edited and name in set(ledger['obligations'])):
+                unknown.append(name + ' (candidate counterexample did not replay)')
+                continue
         line = 'VIOLATION property=%s replay=%s' % (pid, path)
         if not found:
             line += ' obligation=%s no-failing-input-found' % name
@@ -319,6 +326,7 @@ def main(argv=None):
     for s in standins:
         if s.get('violation'):
             p = os.path.join(VERIF, 'replays', pid, re.sub(r'[^A-Za-z0-9_.-]', '_', s['name']) + '.py')
+            os.makedirs(os.path.dirname(p), exist_ok=True)
             with open(p, 'w') as f:
                 f.write(s.get('replay', '# %s\n' % s['violation']))
             known = [kf for kf in findings if kf.get('standin') == s['name'] and kf.get('witness') == s.get('witness')]
